@@ -28,7 +28,8 @@ ASSUMPTIONS = [
     'explicit known cards named by the dealer are taken from get_dealable_cards(k), as the documentation asks - except '
     'in the "reserve" dealer mode (fault reserve_card_named), where cards lying in the muck, discard or burn piles are named '
     'although the deck covers the deal, which the engine allows with a warning',
-    'unknown cards are dealt only as burns and face-down hole cards, and are revealed with explicit cards at showdown',
+    'unknown cards - "??" and half-known ones such as "A?" or "?s" - are dealt only as burns and face-down hole cards, '
+    'and are revealed with explicit cards at showdown',
     'capacity rule: run-out counts are chosen only while the deck can physically serve them',
 ]
 BIAS = dict(custom_num=1, chips=('int',), stack_pool=(5, 8, 13, 20, 40, 100, 200),
@@ -133,9 +134,13 @@ class CardMonitor(Monitor):
             if list(st.mucked_cards) != prev['muck'] + moved:
                 self.fail(st, op, f'move: muck is {st.mucked_cards}, expected previous muck + {moved}')
         elif t == 'CardBurning':
-            want = (prev['burn'] if len(prev['deck']) >= 1 or op.card in explicit else []) + [op.card]
-            if list(st.burn_cards) != want and list(st.burn_cards) != [op.card]:
-                self.fail(st, op, f'move: burn pile is {st.burn_cards}, expected {want}')
+            # known cards only: unknown placeholders ("??", "A?") stand for no particular card, the engine may drop one
+            # of them from a pile when another unknown card is consumed, and the statement speaks about known cards
+            now_known = [c for c in st.burn_cards if c]
+            burnt = [op.card] if op.card else []
+            want = [c for c in prev['burn'] if c] + burnt
+            if now_known != want and now_known != burnt:          # second form: the piles were emptied by a replenish
+                self.fail(st, op, f'move: burn pile is {st.burn_cards}, expected the known cards {want}')
         elif t == 'StandingPatOrDiscarding':
             i = op.player_index
             k = st.street_index
@@ -163,6 +168,9 @@ def run(ch, ctx):
     if exhaust:
         bias['variants'] = EXHAUST
         bias['min_players'] = 5
+        # royal hold'em with up to 8 players: the 20-card deck then runs out exactly (16 hole cards, a burn and the
+        # flop) and the reserve holds a single card; hands that physically cannot be completed end as aborted runs
+        bias['max_players_by_variant'] = {'NR': 8}
     cfg = gen_config(ch, bias)
     family_draw = cfg['variant'] in ('N2L1D', 'F2L3D', 'FB', 'X5D', 'XA5', 'XDM')
     dealer = ch.choice('c06.dealer', ('engine', 'explicit', 'counted', 'hidden', 'explicit', 'reserve'))
